@@ -309,10 +309,14 @@ theorem dfs_head_min (rs : TRules) :
         split at h
         · apply star h
           intro ext' i hm hr
-          have hmem := result_some_mem hr
-          have := okChild_of_mem hmem
-          rw [globMatches_length hm] at this
-          exact absurd this hokf
+          -- either the field is literally `*` (it then takes the wildcard transition), or the literal child fails
+          cases hfs : (fd == starB) with
+          | true => simpa using hfs
+          | false =>
+            have hmem := result_some_mem hr
+            have := okChild_of_mem hmem
+            rw [globMatches_length hm] at this
+            exact absurd (by simp [bne, hfs, this]) hokf
         · simp at h
 
 /-- Unordered mode, backtracking on, one type root: the final state found first belongs to a rule
